@@ -40,6 +40,9 @@ struct Log {
     drop_faulted: Vec<Id>,
     /// destructors that ran on something that is not a token (id, context)
     garbage: Vec<(Id, u8)>,
+    /// zero-sized tokens (no identity: counted only) constructed / destructed in this run
+    z_made: u64,
+    z_dropped: u64,
 }
 
 static mut LOG: Option<Log> = None;
@@ -48,7 +51,7 @@ fn log() -> &'static mut Log {
     unsafe {
         if LOG.is_none() {
             let _p = seam::pause();
-            LOG = Some(Log { counts: vec![], events: vec![], ticks: 0, armed: vec![], fired: 0, trace_sites: vec![], record_sites: false, protected: vec![], drop_fault_in: None, drop_faulted: vec![], garbage: vec![] });
+            LOG = Some(Log { counts: vec![], events: vec![], ticks: 0, armed: vec![], fired: 0, trace_sites: vec![], record_sites: false, protected: vec![], drop_fault_in: None, drop_faulted: vec![], garbage: vec![], z_made: 0, z_dropped: 0 });
         }
         LOG.as_mut().unwrap()
     }
@@ -68,6 +71,8 @@ pub fn begin_run() {
     l.drop_fault_in = None;
     l.drop_faulted.clear();
     l.garbage.clear();
+    l.z_made = 0;
+    l.z_dropped = 0;
 }
 
 /// A value whose destruction is observable. Every payload with a destructor carries one.
@@ -111,6 +116,44 @@ impl Drop for Tok {
             }
         }
     }
+}
+
+/// Zero-sized values with a destructor (slice elements, C18): they cannot carry an id, so
+/// constructions and destructions are counted. `ZTok16` is over-aligned, so that a slice of them
+/// raises the alignment of the whole value without adding a byte to it.
+pub struct ZTok(());
+#[repr(align(16))]
+pub struct ZTok16(());
+gc_arena::static_collect!(ZTok);
+gc_arena::static_collect!(ZTok16);
+impl ZTok {
+    #[allow(clippy::new_without_default)]
+    pub fn new() -> ZTok {
+        log().z_made += 1;
+        ZTok(())
+    }
+}
+impl ZTok16 {
+    #[allow(clippy::new_without_default)]
+    pub fn new() -> ZTok16 {
+        log().z_made += 1;
+        ZTok16(())
+    }
+}
+impl Drop for ZTok {
+    fn drop(&mut self) {
+        log().z_dropped += 1;
+    }
+}
+impl Drop for ZTok16 {
+    fn drop(&mut self) {
+        log().z_dropped += 1;
+    }
+}
+/// (constructed, destructed) zero-sized tokens of this run.
+pub fn z_counts() -> (u64, u64) {
+    let l = log();
+    (l.z_made, l.z_dropped)
 }
 
 /// The `n`-th destructor of an arena value run by a collection method from now on unwinds.
